@@ -55,6 +55,16 @@ SEEDS = {
           T(["G", "g1", "a+", "b+", "10", "*"]),
           T(["O", "o1", "a+ b+"]),
           T(["U", "u1", "a e1 g1"]), T(["U", "u2", "u1 o1"])],
+    # two paths over ONE link with an asymmetric CIGAR, in both directions,
+    # overlaps spelled out in the direction of each path; the link written
+    # against / along the first path
+    "P-cigar": [T(["S", "A", "*"]), T(["S", "B", "*"]),
+                T(["L", "B", "-", "A", "-", "1D3M"]),
+                T(["P", "p", "A+,B+", "3M1I"]), T(["P", "q", "B-,A-", "1D3M"])],
+    "P-cigar2": [T(["S", "A", "*"]), T(["S", "B", "*"]),
+                 T(["L", "A", "+", "B", "+", "2M1I1M"]),
+                 T(["P", "p", "A+,B+", "*"]), T(["P", "q", "B-,A-", "1M1D2M"]),
+                 T(["P", "r", "A+,B+", "2M1I1M"])],
     # the same identifier mentioned twice by one record (a path over a
     # self-link; a group visiting a segment twice)
     "P-repeat": [T(["S", "A", "*"]), T(["S", "B", "*"]),
